@@ -46,9 +46,20 @@ pub enum Value {
     Ctor(Ctor<CtorName, RcValue>),
     Triv(Triv),
     VCons(ConsN<RcValue, RcValue>),
-    Proj(Proj<RcValue, usize>),
+    Proj(Proj<RcValue, ProductPosition>),
     Lit(Literal),
     SemValue(SemValue),
+}
+
+/// The component selected by one product projection step.
+///
+/// Run-time products are flattened along their right spine, so the last
+/// component of a product type owns every remaining flattened field: its own
+/// type may be a product again once names and labels are erased.
+#[derive(Clone, Copy, Debug, PartialEq, Eq)]
+pub struct ProductPosition {
+    pub index: usize,
+    pub last: bool,
 }
 
 /* ------------------------------- Computation ------------------------------ */
